@@ -19,6 +19,36 @@ from .common import wmod, newworld
 FLAVOURS = {'adapter': AdapterRegistry, 'verifying': VerifyingAdapterRegistry}
 
 
+class DV:
+    """A subscriber nobody but the registry refers to; when it goes away it
+    subscribes another value under the key it was subscribed under (a
+    finaliser that re-enters the registry in the middle of unsubscribe())."""
+
+    def __init__(self, W, S, key, rq, prov):
+        self.W, self.S, self.key, self.rq, self.prov = W, S, key, rq, prov
+
+    def __repr__(self):
+        return 'DV'
+
+    def __eq__(self, other):
+        return isinstance(other, DV)
+
+    __hash__ = None
+
+    def __del__(self):
+        try:
+            if self.W.get('reg') is None or self.W.get('closing'):
+                return
+            self.W['reg'].subscribe(self.rq, self.prov, self.W['a2'])
+            self.S.append((self.key, self.W['a2']))
+        except Exception as e:          # noqa: BLE001
+            self.W.setdefault('finaliser-errors', []).append(repr(e))
+
+
+def vid(W, v):
+    return id(W['dvtoken']) if isinstance(v, DV) else id(v)
+
+
 def mk(n, *b):
     return InterfaceClass(n, b or (Interface,), {'__module__': wmod()})
 
@@ -34,6 +64,8 @@ def build(flavour):
     W['a2'] = V('a', 2)
     W['b'] = FalsyV('b', 3)
     W['reg'] = FLAVOURS[flavour]()
+    W['dvtoken'] = DV(W, [], None, None, None)       # what the model lists in place of a DV
+    W['dvtoken'].W = {}
     return W
 
 
@@ -48,7 +80,7 @@ def all_ops(cfg):
     ops = [('rebuild',)]
     if cfg.get('only') == 'subscribers':
         for k in keys:
-            for v in ('a', 'a2', 'b'):
+            for v in ('a', 'a2', 'b', 'dv'):
                 ops.append(('sub', k, v))
             for v in ('a', 'b', None):
                 ops.append(('unsub', k, v))
@@ -76,6 +108,10 @@ def apply(W, M, S, op):
     (req, prov, name), v = op[1], op[2]
     key = (tuple(req), prov, name)
     rq = [W[x] for x in req]
+    if v == 'dv':
+        r.subscribe(rq, W[prov], DV(W, S, key[:2], rq, W[prov]))
+        S.append((key[:2], W['dvtoken']))
+        return
     val = W[v] if v else None
     if t == 'reg':
         r.register(rq, W[prov], name, val)
@@ -91,8 +127,9 @@ def apply(W, M, S, op):
         r.subscribe(rq, W[prov], val)
         S.append((key[:2], val))
     elif t == 'unsub':
-        r.unsubscribe(rq, W[prov], val)
+        # (the model first: a finaliser that runs inside the call adds to it)
         S[:] = [e for e in S if not (e[0] == key[:2] and (val is None or e[1] == val))]
+        r.unsubscribe(rq, W[prov], val)
 
 
 def nm(x):
@@ -114,7 +151,9 @@ def check(W, M, S, flavour):
                  for k, v in M.items())
     if allr != exp:
         return ('allRegistrations', allr, exp)
-    alls = sorted((tuple(nm(x) for x in rq), nm(p), id(v)) for rq, p, v in r.allSubscriptions())
+    if W.get('finaliser-errors'):
+        return ('finaliser-raised', W['finaliser-errors'])
+    alls = sorted((tuple(nm(x) for x in rq), nm(p), vid(W, v)) for rq, p, v in r.allSubscriptions())
     exps = sorted((tuple('I' if x is None else x for x in k[0]), k[1], id(v)) for k, v in S)
     if alls != exps:
         return ('allSubscriptions', alls, exps)
@@ -169,7 +208,9 @@ def run_hist(cfg, hist):
     S = []
     for op in hist:
         apply(W, M, S, op)
-    return W, M, S, check(W, M, S, cfg['flavour'])
+    v = check(W, M, S, cfg['flavour'])
+    W['closing'] = True
+    return W, M, S, v
 
 
 def expand(arg):
@@ -215,17 +256,20 @@ def run(ctx):
     quick = ctx.tier == 'quick'
     for impl in ('c', 'py'):
         for flavour in FLAVOURS:
+            # 'mixed-arity': one key of each arity 0, 1, 2 (the per-arity
+            # slots are pruned from the end only);
             # 'two-required': keys that share a two-level path of required
             # interfaces (pruning of emptied branches); 'subscribers': only
             # subscribe / unsubscribe / rebuild, deeper (several subscribers
             # under one key, reference counts of provided interfaces)
             if quick:
                 plans = [([0, 1, 2, 3, 4, 5, 6], 2, 'seven-keys', None), ([1, 2, 7], 3, 'three-keys', None),
-                         ([6, 9, 8], 3, 'two-required', None), ([1, 2], 4, 'subscribers', 'subscribers')]
+                         ([6, 9, 8], 3, 'two-required', None), ([1, 2], 4, 'subscribers', 'subscribers'),
+                         ([0, 1, 6], 3, 'mixed-arity', None)]
             else:
                 plans = [([0, 1, 2, 3, 4, 5, 6, 7, 8], 3, 'nine-keys', None), ([1, 2, 7], 4, 'three-keys', None),
                          ([6, 9, 8, 10], 3, 'two-required', None), ([6, 9, 8], 4, 'two-required-deep', None),
-                         ([1, 2, 6], 5, 'subscribers', 'subscribers')]
+                         ([1, 2, 6], 5, 'subscribers', 'subscribers'), ([0, 1, 6], 4, 'mixed-arity', None)]
             if quick and flavour == 'verifying' and impl == 'py':
                 plans = plans[:1] + plans[2:]
             for keyidx, depth, label, only in plans:
